@@ -382,6 +382,9 @@ structure UsageCfg where
   pctUsed : String            -- first argument of `usage_percent`
   pctTotal : String           -- second argument
   pctRound : Nat              -- `round_=`
+  /-- `_common.usage_percent` has the body the model transcribes: `float(used) / total * 100`, `0.0` on
+      ZeroDivisionError, `round(ret, round_)` (translator fact `usagePercentIsRatioTimes100`) -/
+  pctShape : Bool
   outTotal : String           -- `sdiskusage(total=…, used=…, free=…)`
   outUsed : String
   outFree : String
@@ -399,29 +402,6 @@ def evalAssigns : List Assign → List (String × Int) → Option (List (String 
       | none => none
     | _, _ => none
 
-structure Usage where
-  total : Int
-  used : Int
-  free : Int
-  /-- `usage_percent(used, total_user)` before rounding, as an exact rational
-      (`0` on ZeroDivisionError) -/
-  percentExact : Rat
-  roundDigits : Nat
-  deriving Repr
-
-/-- `st` = the statvfs result as (`"st.f_blocks"`, value) … pairs -/
-def diskUsage (cfg : UsageCfg) (st : List (String × Int)) : Option Usage :=
-  match evalAssigns cfg.assigns st with
-  | none => none
-  | some env =>
-    match env.lookup cfg.outTotal, env.lookup cfg.outUsed, env.lookup cfg.outFree,
-          env.lookup cfg.pctUsed, env.lookup cfg.pctTotal with
-    | some t, some u, some f, some pu, some pt =>
-      some { total := t, used := u, free := f,
-             percentExact := if pt = 0 then 0 else (pu : Rat) / (pt : Rat) * 100,
-             roundDigits := cfg.pctRound }
-    | _, _, _, _, _ => none
-
 /-- `round(x, 1)` on the exact value: nearest multiple of 1/10, ties to even -/
 def round1 (q : Rat) : Rat :=
   let t := q * 10
@@ -429,6 +409,46 @@ def round1 (q : Rat) : Rat :=
   let d := t - f
   let r : Int := if d < 1/2 then f else if d > 1/2 then f + 1 else (if f % 2 = 0 then f else f + 1)
   (r : Rat) / 10
+
+/-- `round(x, k)` on the exact value: nearest multiple of 10^-k, ties to even (`roundTo 1 = round1`,
+    lemma `roundTo_one`) -/
+def roundTo (k : Nat) (q : Rat) : Rat :=
+  let m : Rat := (10 : Rat) ^ k
+  let t := q * m
+  let f := t.floor
+  let d := t - f
+  let r : Int := if d < 1/2 then f else if d > 1/2 then f + 1 else (if f % 2 = 0 then f else f + 1)
+  (r : Rat) / m
+
+structure Usage where
+  total : Int
+  used : Int
+  free : Int
+  /-- `float(used) / total_user * 100` BEFORE `round(…, round_)`, as an exact rational (`0` on
+      ZeroDivisionError); kept beside the returned value for the comparison with CPython's double -/
+  percentExact : Rat
+  /-- the value returned in `sdiskusage.percent`: `round(percentExact, round_)` in exact arithmetic
+      (the IEEE double of CPython differs from it by the float error only: TRUSTED, compared on every run) -/
+  percent : Rat
+  roundDigits : Nat
+  deriving Repr
+
+/-- `st` = the statvfs result as (`"st.f_blocks"`, value) … pairs; `none` = a name is unbound, an operator
+    is unknown, or `usage_percent` no longer has the transcribed body -/
+def diskUsage (cfg : UsageCfg) (st : List (String × Int)) : Option Usage :=
+  if cfg.pctShape = false then none else
+  match evalAssigns cfg.assigns st with
+  | none => none
+  | some env =>
+    match env.lookup cfg.outTotal, env.lookup cfg.outUsed, env.lookup cfg.outFree,
+          env.lookup cfg.pctUsed, env.lookup cfg.pctTotal with
+    | some t, some u, some f, some pu, some pt =>
+      let exact : Rat := if pt = 0 then 0 else (pu : Rat) / (pt : Rat) * 100
+      some { total := t, used := u, free := f,
+             percentExact := exact,
+             percent := roundTo cfg.pctRound exact,
+             roundDigits := cfg.pctRound }
+    | _, _, _, _, _ => none
 
 /-! ### `disk_usage(path)` as a call -/
 
